@@ -287,4 +287,7 @@ def run(model, R):
     from .common import no_unpickle_shortcut
     R.guard('ORDER', None, '_init call sites', no_unpickle_shortcut, model, R, 'ORDER')
     R.guard('ORDER', None, 'raw flag', raw_is_forwarded, model, R)
+    # positions are observable through lattice[i] and iteration (C02's lookup rules are a dependency)
+    from . import c02 as _c02
+    R.guard('MAPPING', None, 'Lattice lookups', _c02.lattice_rules, model, R)
     return __doc__.strip()
